@@ -36,7 +36,7 @@ RULE = ('cases = (a) chi² vector over {1, 2, 3.5, +inf, NaN} of length 0..5 (or
         'canonical hash of the generated inputs')
 REQUIRED_BRANCHES = ['direct', 'near_tie', 'near_tie_ulp', 'e2e_near_tie', 'tie', 'inf', 'nan', 'already_ranked', 'reordered', 'no_fluxes', 'with_fluxes',
                      'e2e', 'e2e_tie', 'e2e_1e30', 'e2e_clamped', 'e2e_reordered',
-                     'e2e3d', 'e2e3d_tie', 'e2e3d_mask_changed_best', 'e2e3d_reordered', 'e2e3d_predicted_independent',
+                     'e2e3d', 'e2e3d_tie', 'e2e3d_mask_changed_best', 'e2e3d_reordered', 'e2e3d_predicted_independent', 'e2e3d_dist_kpc', 'e2e3d_dist_pc', 'e2e3d_dist_other_unit',
                      'e2e_cube', 'e2e_cube_long_names', 'e2e_cube_shared_prefix', 'e2e_cube_reordered']
 ASSUMPTIONS = ['"non-decreasing chi²" is checked EXACTLY on the own float64 numbers of the implementation, its chi² column (NaN last), with no '
                'tolerance and no margin relaxation, also for chi² values that differ by 1 ulp .. 1e-8 relative (near-ties, built '
@@ -125,9 +125,11 @@ def gen_cases(seed, tier):
     yield gen_cube(case_rng(seed, PID, 'directed-cube-0'), directed=True)
     yield gen_cube(case_rng(seed, PID, 'directed-cube-1'), directed=True)
     for i in range(3):
-        yield gen_e2e3d_masked(case_rng(seed, PID, 'directed-3d-masked-%d' % i))
-    yield gen_e2e3d(case_rng(seed, PID, 'directed-3d-0'), resolved=True, dup=True)
-    yield gen_e2e3d(case_rng(seed, PID, 'directed-3d-1'), resolved=True, dup=True)
+        yield gen_e2e3d_masked(case_rng(seed, PID, 'directed-3d-masked-%d' % i), unit=['kpc', 'pc', 'lyr'][i])
+    yield gen_e2e3d(case_rng(seed, PID, 'directed-3d-0'), resolved=True, dup=True, unit='pc')
+    yield gen_e2e3d(case_rng(seed, PID, 'directed-3d-1'), resolved=True, dup=True, unit='Mpc')
+    yield gen_e2e3d(case_rng(seed, PID, 'directed-3d-2'), resolved=False, dup=False, unit='cm')
+    yield gen_e2e3d(case_rng(seed, PID, 'directed-3d-3'), resolved=False, dup=True, unit='kpc')
     if tier == 'thorough':
         for v in all_vectors():
             yield direct_case(v, len(v) % 2 == 0)
@@ -180,6 +182,7 @@ def cube_names(rng, nm, long_names=True):
 def gen_cube(rng, directed=False):
     case = gen_e2e(rng, 'dup' if directed else None)
     case['c04pkg'] = 'named_cube'
+    case['pkg'] = 'cube'            # c01.model_side then takes the wavelengths the way a cube package is fitted
     nm = len(case['models'])
     names = cube_names(rng, nm)
     if directed:
@@ -194,7 +197,32 @@ def gen_cube(rng, directed=False):
     return case
 
 
-def gen_e2e3d(rng, resolved=None, dup=None):
+DIST_UNITS = ['kpc', 'kpc', 'pc', 'pc', 'Mpc', 'cm', 'lyr', 'm']
+
+
+def give_distance_unit(rng, case, unit=None):
+    """state the distance range in another length unit (few significant digits in that unit); the fitter converts it
+    to kpc itself, and the reported scale must be log10 of the distance IN KPC that the fluxes were scaled with"""
+    from astropy import units as u
+    unit = unit or rng.choice(DIST_UNITS)
+    dlo, dhi = case['dist']
+    if unit != 'kpc':
+        fac = (1. * u.kpc).to(u.Unit(unit)).value
+        given = [float('%.4g' % (dlo * fac)), float('%.4g' % (dhi * fac))]
+        if dlo == dhi:
+            given[1] = given[0]
+        back = pk.to_kpc(given, unit)
+        # keep theta * dmin above the smallest tabulated aperture and the range non-degenerate unless it was meant to be
+        if back[0] >= dlo * 0.999 and (back[1] > back[0] or dlo == dhi):
+            case['dist_unit'] = unit
+            case['dist_given'] = given
+            return case
+    case['dist_unit'] = 'kpc'
+    case['dist_given'] = [dlo, dhi]
+    return case
+
+
+def gen_e2e3d(rng, resolved=None, dup=None, unit=None):
     """aperture-dependent package: fluxes (n_models, n_ap, n_bands) rising with aperture"""
     nb = rng.randint(2, 4)
     nm = rng.randint(2, 5)
@@ -250,12 +278,13 @@ def gen_e2e3d(rng, resolved=None, dup=None):
                 flux.append(f)
                 err.append(float('%.3g' % (f * common.nice(rng, 0.01, 0.3, 2))))
         sources.append(dict(flags=flags, flux=flux, err=err))
-    return dict(kind='e2e3d', wavs=wavs, aps=aps, models=models, tab_w=tw, tab_chi=chi,
-                av=[0., float('%.2g' % rng.uniform(1., 40.))], dist=[dlo, dhi], logd_step=rng.choice([0.02, 0.05, 0.2]),
-                ap_arcsec=ap_arcsec, remove_resolved=resolved, sources=sources)
+    return give_distance_unit(rng, dict(
+        kind='e2e3d', wavs=wavs, aps=aps, models=models, tab_w=tw, tab_chi=chi,
+        av=[0., float('%.2g' % rng.uniform(1., 40.))], dist=[dlo, dhi], logd_step=rng.choice([0.02, 0.05, 0.2]),
+        ap_arcsec=ap_arcsec, remove_resolved=resolved, sources=sources), unit)
 
 
-def gen_e2e3d_masked(rng):
+def gen_e2e3d_masked(rng, unit=None):
     """extended models (surface brightness not falling outwards) seen through small apertures at a source that
     matches them at the NEAREST trial distance: without the mask the best distance is near dmin, with
     remove_resolved every trial distance but the farthest is masked, so the reported distance must move"""
@@ -285,8 +314,9 @@ def gen_e2e3d_masked(rng):
             flux.append(f)
             err.append(float('%.3g' % (0.05 * f)))
         sources.append(dict(flags=[1] * nb, flux=flux, err=err))
-    return dict(kind='e2e3d', wavs=wavs, aps=aps, models=models, tab_w=tw, tab_chi=chi, av=[0., 5.], dist=[dlo, dhi],
-                logd_step=0.05, ap_arcsec=ap_arcsec, remove_resolved=True, sources=sources)
+    return give_distance_unit(rng, dict(kind='e2e3d', wavs=wavs, aps=aps, models=models, tab_w=tw, tab_chi=chi, av=[0., 5.],
+                                        dist=[dlo, dhi], logd_step=0.05, ap_arcsec=ap_arcsec, remove_resolved=True,
+                                        sources=sources), unit)
 
 
 NEAR_GAPS = [1e-8, 1e-10, 1e-13, 'ulp']
@@ -408,21 +438,25 @@ def check_rows_property(rows, chi2, pay):
 # ----------------------------------------------------------------------------- (b) end to end
 
 def build_cube(case, d):
-    """version-2 package: the case's models as an SED cube tabulated at the fitted wavelengths (plus one
-    more), one aperture, fitted at those wavelengths"""
+    """version-2 package: the case's models as an SED cube with the case's (long) model names, tabulated at the fitted
+    wavelengths plus two more, one aperture, fitted at wavelengths.  Wavelengths are tabulated and requested exactly
+    as harness/c01.py does for its cube packages (requested wavelength possibly a little off the tabulated one and in
+    another unit), so that c01.model_side describes the same fit."""
     from astropy import units as u
     names = list(case['names'])
     nm = len(names)
-    extra = float('%.3g' % (max(case['wavs']) * 2.5))
-    wav = sorted(list(case['wavs']) + [extra])
-    val = np.ones((nm, 1, len(wav)))
-    for j, w in enumerate(case['wavs']):
-        val[:, 0, wav.index(w)] = [case['models'][i][j] for i in range(nm)]
-    pk.write_cube_package(d, names, wav, val, np.zeros_like(val), apertures_au=None, aperture_dependent=False)
+    extra = [min(case['wavs']) / 3., max(case['wavs']) * 3.]
+    allw = sorted(list(case['wavs']) + extra, reverse=(len(case['wavs']) % 2 == 0))
+    val = np.zeros((nm, 1, len(allw)))
+    for i in range(nm):
+        for jj, w in enumerate(allw):
+            val[i, 0, jj] = case['models'][i][case['wavs'].index(w)] if w in case['wavs'] else 1. + i + jj
+    pk.write_cube_package(d, names, allw, val, val * 0.1, apertures_au=[100.], aperture_dependent=False)
     unit, tab, _, _ = c01.table_in_unit(case)
     ext = pk.make_extinction(tab, case['tab_chi'], wav_unit=unit)
-    fitter = pk.make_fitter(d, [w * u.micron for w in case['wavs']], [1.] * len(case['wavs']), ext, case['av'],
-                            use_memmap=False)
+    units = case.get('filt_units') or ['micron'] * len(case['wavs'])
+    fnames = [(w * u.micron).to(u.Unit(un)) for w, un in zip(case.get('req_wavs') or case['wavs'], units)]
+    fitter = pk.make_fitter(d, fnames, [1.] * len(fnames), ext, case['av'], use_memmap=False)
     return fitter, names
 
 
@@ -539,7 +573,8 @@ def build3d(case, d, which, remove_resolved=None):
         flux = [[case['models'][i][a][j] for a in range(len(case['aps']))] for i in which]
         pk.write_convolved(d, fn, w, names, flux, np.zeros((len(which), len(case['aps']))), apertures_au=case['aps'])
     ext = pk.make_extinction(case['tab_w'], case['tab_chi'])
-    fitter = pk.make_fitter(d, fnames, case['ap_arcsec'], ext, case['av'], distance_range_kpc=case['dist'],
+    fitter = pk.make_fitter(d, fnames, case['ap_arcsec'], ext, case['av'],
+                            distance_range_kpc=case.get('dist_given', case['dist']), distance_unit=case.get('dist_unit'),
                             remove_resolved=case['remove_resolved'] if remove_resolved is None else remove_resolved)
     return fitter, names
 
@@ -563,6 +598,8 @@ def expected_predicted3(case, m, av, sc):
 def run_e2e3d(case):
     root = tempfile.mkdtemp(prefix='c04_3d_')
     br = {'e2e3d'}
+    du = case.get('dist_unit', 'kpc')
+    br.add('e2e3d_dist_kpc' if du == 'kpc' else 'e2e3d_dist_pc' if du == 'pc' else 'e2e3d_dist_other_unit')
     key = common.canon_hash(case)
     nm = len(case['models'])
     try:
@@ -623,9 +660,10 @@ def run_e2e3d(case):
                 br.add('e2e3d_predicted_independent')
                 if len(have) != len(want) or not all(common.close(a, b, 1e-9) for a, b in zip(have, want)):
                     return CaseResult(False, detail=(
-                        'source %d row %d (model %s, av=%r, sc=%r i.e. d=%r kpc): stored predicted log fluxes %r; the model\'s fluxes '
+                        'distance_range = %r %s; source %d row %d (model %s, av=%r, sc=%r i.e. d=%r kpc): stored predicted log fluxes %r; the model\'s fluxes '
                         'interpolated to the apertures theta*d, scaled by d^-2, plus av*k give %r'
-                        % (si, i, names[m], float(got['av'][i]), float(got['sc'][i]), 10. ** float(got['sc'][i]), have, want)),
+                        % (case.get('dist_given', case['dist']), case.get('dist_unit', 'kpc'), si, i, names[m], float(got['av'][i]),
+                           float(got['sc'][i]), 10. ** float(got['sc'][i]), have, want)),
                         violates=True, branches=br, key=key)
             if len({ef.js(c) for c in ochi}) < nm:
                 br.add('e2e3d_tie')
@@ -655,7 +693,8 @@ def run_e2e3d(case):
                         violates=True, branches=br, key=key)
         return CaseResult(True, branches=br, key=key, nontrivial=nm >= 2,
                           sample=dict(kind='e2e3d', n_models=nm, n_apertures=len(case['aps']), n_bands=len(case['wavs']),
-                                      dist=case['dist'], remove_resolved=case['remove_resolved']))
+                                      dist=case.get('dist_given', case['dist']), dist_unit=case.get('dist_unit', 'kpc'),
+                                      remove_resolved=case['remove_resolved']))
     finally:
         shutil.rmtree(root, ignore_errors=True)
 
